@@ -82,7 +82,7 @@ func newExec(p *Program, cs *ContractSet, fn *ssa.Function, ct *Contract) *Exec 
 		declSet: map[string]bool{}, inlined: map[string]bool{}, usedContracts: map[string]bool{},
 		maxPaths: 1500, goalNames: map[string]int{}, callOrd: map[string]int{}, compIDs: map[string]int{}, compSorts: map[string]string{},
 		fnIDs: map[*ssa.Function]int{}, closures: map[string]*Closure{}, fieldRefs: map[int]fieldRefInfo{}, implPreds: map[string]*types.Interface{},
-		uncontracted: map[string]bool{}, usedAxioms: map[string]bool{}, reified: map[string]*Ptr{}, unfolded: map[string]bool{}}
+		uncontracted: map[string]bool{}, usedAxioms: map[string]bool{}, assumedClauses: map[string]bool{}, reified: map[string]*Ptr{}, unfolded: map[string]bool{}}
 	ex.u.extraDecls = p.spec.text
 	return ex
 }
@@ -182,6 +182,9 @@ func (p *Program) verifyFunctionWith(cs *ContractSet, ct *Contract, findings map
 	res.Notes = ex.notes
 	for n := range ex.usedAxioms {
 		res.Axioms = append(res.Axioms, n)
+	}
+	for n := range ex.assumedClauses {
+		res.Axioms = append(res.Axioms, "assumed-clause:"+n)
 	}
 	res.Paths = ex.paths + 1
 	res.Prelude = ex.u.Prelude()
@@ -341,6 +344,10 @@ func (ex *Exec) checkPost(st *State, fc *FnCtx, results []Val, retN int) {
 	}
 	ex.cover(st, fc.prefix+"#cover.return", tTrue, ct.Props, "some return path is reachable under the assumed contracts")
 	for i, cl := range ct.Ensures {
+		if cl.Assumed {
+			ex.assumedClauses[fc.prefix+"#post("+cl.Label+"): "+cl.Text] = true
+			continue
+		}
 		t, err := env.evalBool(cl.Text)
 		if err != nil {
 			ex.specError(cl, err)
